@@ -1,6 +1,6 @@
 """Formatter cluster: C39 (crash-atomic --write), C07 (range formatting), C05/C06 (formatter preserves code / idempotent)."""
 
-HOOK_COMMITS = []
+HOOK_COMMITS = ["6d4f8a7 verif hook: emmylua_formatter feature verif (H5): range-format text helpers, format_to_ir, print_ir, ir_to_sexpr"]
 
 PROPS = {
     "C39": {
